@@ -395,11 +395,13 @@ func (c *Client) sendWithWriter(writer io.Writer, packet []byte) error {
 
 // Loop: Receive data from server
 func (c *Client) recv(keepaliveQuit chan<- struct{}) {
-	defer close(keepaliveQuit)
-
+	// On every way out the keepalive of this connection is stopped before the application is told that the
+	// session is over: its handler may reconnect at once (StreamManager does, and keeps trying while the server
+	// is down), and the old keepalive must not ping - or close - whatever the transport is connected to by then.
 	for {
 		val, err := stanza.NextPacket(c.transport.GetDecoder())
 		if err != nil {
+			close(keepaliveQuit)
 			c.ErrorHandler(err)
 			c.disconnected(c.Session.SMState)
 			return
@@ -409,6 +411,7 @@ func (c *Client) recv(keepaliveQuit chan<- struct{}) {
 		switch packet := val.(type) {
 		case stanza.StreamError:
 			c.router.route(c, val)
+			close(keepaliveQuit)
 			// A stream error ends the stream (RFC 6120, 4.9.1.1): nothing more is read from it. Our side is
 			// closed before the application is told: its handler may reconnect at once (StreamManager does),
 			// and whatever is done to the transport after that would be done to the new connection.
@@ -425,6 +428,7 @@ func (c *Client) recv(keepaliveQuit chan<- struct{}) {
 			}, H: c.Session.SMState.Inbound}
 			err = c.Send(answer)
 			if err != nil {
+				close(keepaliveQuit)
 				c.ErrorHandler(err)
 				c.disconnected(c.Session.SMState)
 				return
@@ -432,6 +436,7 @@ func (c *Client) recv(keepaliveQuit chan<- struct{}) {
 		case stanza.StreamClosePacket:
 			// TCP messages should arrive in order, so we can expect to get nothing more after this occurs
 			c.transport.ReceivedStreamClose()
+			close(keepaliveQuit)
 			// The server has closed the stream: the session is over, whoever asked for it first.
 			c.disconnected(c.Session.SMState)
 			return
